@@ -15,8 +15,8 @@ def expectedSkeleton : List (String × List String) := [
   ("rfbMarkRegionAsModified", ["rfbGetClientIterator", "rfbClientIteratorNext", "LOCK updateMutex", "TSIGNAL updateCond", "UNLOCK updateMutex", "rfbReleaseClientIterator"]),
   ("rfbScheduleCopyRegion", ["rfbGetClientIterator", "rfbClientIteratorNext", "LOCK updateMutex", "TSIGNAL updateCond", "UNLOCK updateMutex", "rfbReleaseClientIterator"]),
   ("rfbNewFramebuffer", ["rfbGetClientIterator", "rfbClientIteratorNext", "break", "rfbIncrClientRef", "LOCK sendMutex", "rfbReleaseClientIterator", "LOCK cursorMutex", "LOCK updateMutex", "TSIGNAL updateCond", "UNLOCK updateMutex", "UNLOCK sendMutex", "rfbDecrClientRef", "free", "UNLOCK cursorMutex"]),
-  ("rfbShutdownServer", ["rfbShutdownSockets", "pipewrite listener", "pthread_join", "rfbClientIteratorNext", "rfbCloseClient", "rfbClientIteratorNext", "pthread_join", "rfbClientConnectionGone", "rfbClientConnectionGone", "rfbReleaseClientIterator"]),
-  ("rfbScreenCleanup", ["rfbClientIteratorNext", "rfbClientIteratorNext", "rfbClientConnectionGone", "rfbReleaseClientIterator", "free", "TINI_MUTEX cursorMutex", "free", "free", "free"]),
+  ("rfbShutdownServer", ["rfbShutdownSockets", "pipewrite listener", "pthread_join", "rfbGetClientIteratorWithClosed", "rfbClientIteratorNext", "rfbCloseClient", "rfbClientIteratorNext", "pthread_join", "rfbClientConnectionGone", "rfbClientConnectionGone", "rfbReleaseClientIterator"]),
+  ("rfbScreenCleanup", ["rfbGetClientIteratorWithClosed", "rfbClientIteratorNext", "rfbClientIteratorNext", "rfbClientConnectionGone", "rfbReleaseClientIterator", "free", "TINI_MUTEX cursorMutex", "free", "free", "free"]),
   ("rfbRunEventLoop", ["pthread_create", "return", "return"]),
   ("rfbIncrClientRef", ["LOCK refCountMutex", "UNLOCK refCountMutex"]),
   ("rfbDecrClientRef", ["LOCK refCountMutex", "TSIGNAL deleteCond", "UNLOCK refCountMutex"]),
